@@ -54,13 +54,49 @@ def v_coerce(x):
     return abs(x)
 
 
-VALIDATORS = {"ident": v_ident, "reject": v_reject, "coerce": v_coerce}
+class BadEq:
+    """an item that compares equal to (and hashes like) the value it wraps but is invalid by TYPE - what 1.0 is to an Int
+    trait holding 1.  Lets 'invalid' and 'equal to something already stored' coincide."""
+    __slots__ = ("x",)
+    __sym_reflect__ = True
+
+    def __init__(self, x):
+        self.x = x
+
+    def __eq__(self, o):
+        return self.x == (o.x if isinstance(o, BadEq) else o)
+
+    def __ne__(self, o):
+        return self.x != (o.x if isinstance(o, BadEq) else o)
+
+    def __hash__(self):
+        return hash(self.x)
+
+    def __repr__(self):
+        return "BadEq(%r)" % (self.x,)
+
+    def __sym_eval__(self, model):
+        return "BadEq(%r)" % (symx.evaluate(self.x, model),)
+
+    def __conc__(self):
+        return "BadEq(%r)" % (int(self.x),)
+
+
+def v_typed(x):
+    if isinstance(x, BadEq):
+        raise TraitError("wrong type")
+    return x
+
+
+VALIDATORS = {"ident": v_ident, "reject": v_reject, "coerce": v_coerce, "typed": v_typed}
 
 
 def valid(x, vname):
     """membership validity: x is a fixed point of the validator"""
     if vname == "ident":
         return True
+    if vname == "typed":
+        return not isinstance(x, BadEq)
     return bool(x >= 0)
 
 
@@ -275,4 +311,32 @@ def obligations(tier, build):
                                  "the representation invariant, re-established by every obligation's post-state check"],
                         leverage="aliasing between operation keys and stored keys; validity of keys/values",
                         max_paths=50000))
+    # ---- the same obligations on an owner-backed TraitDictObject (Dict trait value) with the legacy items handler and two
+    # observe handlers attached (mirror obligations in props/_owners.py)
+    import props._owners as owners
+    fac = owners.dict_factory()
+    SO = 2 if tier == "quick" else 3
+    for s in range(SO + 1):
+        for op in OPS:
+            for kvn, vvn in (("ident", "ident"), ("reject", "reject"), ("coerce", "coerce")):
+                multi = "update" in op or "ior" in op
+                for m in ((1, 2) if multi else [0]):
+                    if op in ("popitem", "clear", "delitem", "pop") and (kvn, vvn) != ("ident", "ident"):
+                        continue
+                    if multi and tier == "quick" and m > 1 and (kvn, vvn) != ("ident", "ident"):
+                        continue
+                    obs.append(Obligation(
+                        "owned/%s/s=%d%s/%s-%s" % (op, s, "/m=%d" % m if multi else "", kvn, vvn),
+                        make_harness(op, s, m, kvn, vvn, factory=fac), env=sym_env, stubs=STUBS,
+                        bounds={"stored entries s": s, "argument pairs m": m, "keys/values": "unbounded Int",
+                                "container": "TraitDictObject owned by a HasTraits object; 1 legacy + 2 observe handlers"},
+                        assumes=["pre-state keys pairwise distinct and valid"],
+                        leverage="aliasing between operation keys and stored keys; validity of keys/values", max_paths=50000))
+    falsy = owners.dict_factory(falsy=True)
+    for op in ("setitem", "setdefault", "update_pairs", "ior_map"):
+        for s in (0, 1):
+            obs.append(Obligation("owned-falsy/%s/s=%d/reject-reject" % (op, s), make_harness(op, s, 1, "reject", "reject", factory=falsy),
+                                  env=sym_env, stubs=STUBS,
+                                  bounds={"stored entries s": s, "owner": "falsy (defines __bool__ / __len__)"},
+                                  leverage="validity of keys/values"))
     return obs
